@@ -279,6 +279,7 @@ class Env:
         self.parent = parent
         self.fn = fn  # FunctionInfo of the activation (None for module level)
         self.self_cls = None  # class in which the running method is defined (for super())
+        self.caller_owned: set[str] = set()  # parameters still holding the container object the caller passed (not re-assigned since)
 
     def lookup(self, name: str):
         e = self
@@ -294,6 +295,7 @@ class Env:
         n = Env(self.module, None, self.fn)
         memo[id(self)] = n
         n.self_cls = self.self_cls
+        n.caller_owned = set(self.caller_owned)
         n.parent = self.parent.clone(memo) if self.parent is not None else None
         n.vars = {k: clone_value(v, memo) for k, v in self.vars.items()}
         return n
